@@ -79,8 +79,10 @@ pub fn count_merge_pass(before: usize, after: usize) {
     }
 }
 
-pub fn count_enclose_attempt() {
-    ENCLOSE_ATTEMPTS.with(|c| c.set(c.get() + 1));
+/// `candidates` existing trees are about to be scanned for one item (an upper bound on the
+/// pairwise attempts, since the scan stops at the first tree that takes the item)
+pub fn count_enclose_attempts(candidates: usize) {
+    ENCLOSE_ATTEMPTS.with(|c| c.set(c.get() + candidates as u64));
 }
 
 pub fn count_enclose_pass(before: usize, after: usize) {
@@ -117,12 +119,38 @@ pub fn lazy_event(table: &str, phase: &str) {
     ));
 }
 
-/// wrap a lazy initialiser with begin / end events
-pub fn lazy_init<T>(table: &str, init: impl FnOnce() -> T) -> T {
-    lazy_event(table, "begin");
-    let value = init();
-    lazy_event(table, "end");
-    value
+/// Lives for the duration of a lazy table initialiser: logs `begin` when created and `end`
+/// when dropped. Stage recording on this thread is suspended meanwhile (the circle tables
+/// are built by running the first pipeline stages on the catalogue drawings) and the work
+/// counters are restored afterwards.
+pub struct LazyGuard {
+    table: &'static str,
+    suspended: Option<Vec<String>>,
+    saved: (u64, u64, u64, u64, u64),
+}
+
+impl LazyGuard {
+    pub fn new(table: &'static str) -> Self {
+        lazy_event(table, "begin");
+        LazyGuard {
+            table,
+            suspended: EVENTS.with(|e| e.borrow_mut().take()),
+            saved: counters(),
+        }
+    }
+}
+
+impl Drop for LazyGuard {
+    fn drop(&mut self) {
+        MERGE_ATTEMPTS.with(|c| c.set(self.saved.0));
+        MERGE_PASSES.with(|c| c.set(self.saved.1));
+        ENCLOSE_ATTEMPTS.with(|c| c.set(self.saved.2));
+        ENCLOSE_PASSES.with(|c| c.set(self.saved.3));
+        MERGE_GROWTH.with(|c| c.set(self.saved.4));
+        let suspended = self.suspended.take();
+        EVENTS.with(|e| *e.borrow_mut() = suspended);
+        lazy_event(self.table, "end");
+    }
 }
 
 /// a copy of the process-wide lazy-table log
@@ -240,6 +268,11 @@ pub fn json_fragment_spans<'a>(
     items: impl IntoIterator<Item = &'a FragmentSpan>,
 ) -> String {
     json_list(items, json_fragment_span)
+}
+
+/// the derived catalogue tables (circles and flattened arc tables) as JSON
+pub fn catalogue_tables_json() -> String {
+    crate::map::circle_map::verif_tables_json()
 }
 
 pub fn json_contacts(contacts: &Contacts) -> String {
